@@ -424,6 +424,37 @@ func Expiry() Spec {
 		Events: append(good, bad...), DepthQuick: 5, DepthThor: 6, ExpectFail: expectFail(names(bad...)...), MinStates: 500}
 }
 
+// ExpiryMany: many orders lapse in the same block (more than any page or batch size a handler might use:
+// 101 orders of one seller with one expiration), next to orders of the same seller for ANOTHER batch that are
+// adjacent in the expiration index, and orders that must survive.
+func ExpiryMany() Spec {
+	e10 := chain.T0.Add(10 * time.Second)
+	e20 := chain.T0.Add(20 * time.Second)
+	ur := func(n int64) sdk.Coin { return coin("uregen", n) }
+	var many []*markettypes.MsgSell_Order
+	for i := 0; i < 101; i++ {
+		many = append(many, SO(B1, "0.01", ur(3), true, &e10))
+	}
+	seed := PreparedSeed("prepared+101-orders",
+		SellN(B, "101-orders-expiring-T0+10s", many...),
+		SellN(B, "two-batches-one-expiration", SO(B2, "0.5", ur(2), true, &e10), SO(B1, "0.25", ur(2), true, &e10), SO(B2, "0.25", ur(2), true, &e20)),
+		SellN(C, "two-batches-one-expiration", SO(B1, "3", ur(5), true, &e20), SO(B2, "0.5", ur(5), true, &e20)),
+	)
+	seed.Name = "prepared+101-orders"
+	evs := []E{
+		fix(Next(5 * time.Second)),
+		fix(Next(10 * time.Second)),
+		fix(Next(20 * time.Second)),
+		Buy(D, "B-first", BuySpec{Seller: B, K: 0, DAR: true, MaxFee: I64(100)}),
+		Buy(D, "B-last", BuySpec{Seller: B, K: -1, DAR: true, MaxFee: I64(100)}),
+		CancelOrder(B, B, 2),
+		CancelOrder(C, C, -1),
+		fix(Sell(B, B2, "0.25", ur(2), true, &e10)),
+		fix(Retire(C, B1, "0.5")),
+	}
+	return Spec{Name: "expiry-many", Seeds: []explore.Seed{seed}, Events: evs, DepthQuick: 3, DepthThor: 4, MinStates: 50}
+}
+
 // GovPool: the marketplace fee pool under authority and non-authority
 // messages, uregen (burn) and non-uregen (pool) fee paths (C03).
 func GovPool() Spec {
